@@ -97,6 +97,12 @@ func c16Gen(tier string, r *rand.Rand) []Case {
 	}
 	cs = append(cs, mkcase("sk-generated", c16In{Scalar: hx(rbytes(r, 48)), SkKind: "generated", Tags: th[3:6], Salt: r.Uint64()}))
 	cs = append(cs, mkcase("sk-aggregated", c16In{Scalar: rk(), SkKind: "aggregated", Tags: th[5:8], PkRoute: "decoded", Salt: r.Uint64()}))
+	// limb-sparse private scalars (zero low 64 / 128 / 192 bits), decoded and as the sum of two keys
+	for i, sh := range []uint{64, 128, 192} {
+		k := new(big.Int).Lsh(big.NewInt(int64(1+2*r.IntN(500))), sh)
+		cs = append(cs, mkcase("sk-limb-sparse", c16In{Scalar: hx(fixed(k, 32)), Tags: th[i : i+2], Salt: r.Uint64()}))
+		cs = append(cs, mkcase("sk-limb-sparse", c16In{Scalar: hx(fixed(k, 32)), SkKind: "aggregated", Tags: th[i+2 : i+4], PkRoute: "decoded", Salt: r.Uint64()}))
+	}
 	return cs
 }
 
